@@ -61,8 +61,7 @@ def plan_message_faults(base, clean, reading, tier, rng, directed=True):
     sp = reading.spans
     out = [[]]
     if directed:
-        vals = list(range(256)) if tier == "thorough" else faults.curated_values(enc)
-        out.extend(faults.directed_substitutions(sp, enc, vals))
+        out.extend(faults.directed_substitutions(sp, enc, clean, hexb, all_values=(tier == "thorough")))
     out.extend(faults.numeral_faults(sp, enc))
     out.extend(faults.splice_faults(clean, sp, enc))
     out.extend(faults.consistent_edits(clean, sp, enc, cfg, hexb, rng))
